@@ -3,7 +3,7 @@
 (* class of every field, the model's encoding, trailing byte count, the    *)
 (* corruption) with the expected outcome of the intended decoder: outcome  *)
 (* class, bytes consumed and the field at which decoding stopped.          *)
-(* Only the environment moves here (Corrupt); the decoder's run on every   *)
+(* Only the environment moves here (Expand, Corrupt); the decoder's run on *)
 (* case is folded into Final.                                              *)
 EXTENDS Codec, Json
 
@@ -12,6 +12,6 @@ Line ==
   [rec |-> case.rec, cls |-> case.cv, enc |-> case.enc, rest |-> case.rest, c |-> case.c,
    exp |-> [outcome |-> fin.outcome, pos |-> fin.pos, fi |-> fin.fi]]
 
-GSpec == Init /\ [][Corrupt]_vars
-Emit == PrintT(<<"REPLAY", ToJson(Line)>>)
+GSpec == Init /\ [][Expand \/ Corrupt]_vars
+Emit == case.rest >= 0 => PrintT(<<"REPLAY", ToJson(Line)>>)
 =============================================================================
